@@ -15,7 +15,9 @@ CHECKS = {
         "format for every column list / every admissible serial type / any header size, the local-payload size equals the X/M/K rule for every payload "
         "length and legal page size (table and index), parsePayload decodes inline and spilled cells, addOverflow returns the payload for overflow chains "
         "of any length; the four cell formats (table leaf / interior, index leaf / interior) decode from their encodings, the cell pointer array decodes to the offsets it encodes, and a table "
-        "leaf page laid out as the format says decodes to exactly its cells in pointer-array order (C14_table_leaf_cell ... C14_table_leaf_page). The model is run against the real decoders (function level, exhaustive on small spaces) and against SQLite-written files at every "
+        "leaf page laid out as the format says decodes to exactly its cells in pointer-array order (C14_table_leaf_cell ... C14_table_leaf_page). The local-payload arithmetic of the model is "
+        "tied to the source by translation as well: calculateCellInPageBytes and the three threshold expressions are translated from db/btree.go on every build (Go's truncated / and %) and "
+        "proved equal to the model's for every page size >= 12, payload length and threshold (C14_source_arithmetic). The model is run against the real decoders (function level, exhaustive on small spaces) and against SQLite-written files at every "
         "spill threshold on every run.",
    note="The page-level theorem is stated for table leaf pages; the other three page kinds differ only in the header offset of the pointer array and the cell parser (their cells and the "
         "pointer array have their own theorems) and are covered by the correspondence run on every page of the corpus.",
